@@ -113,11 +113,22 @@ def err1(P, R, L):
             for f in fs:
                 findings.setdefault(f.key(), []).append(f)
         bad = 0
+        # a helper that is not on the reviewed tree's list stands for the functions it was extracted from: an allow-table row
+        # of every such caller covers the same callee inside the helper
+        hosts = sorted({c for (h_, c, _) in getattr(P, "inlined", []) if h_ == p})
         for k, fl in sorted(findings.items()):
             if k in ALLOW:
                 used_allow.add(k)
                 R.allow("ERR-1|" + k, ALLOW[k])
                 continue
+            if hosts:
+                callee_part = k.split("|")[1] if "|" in k else ""
+                rows = [[a for a in ALLOW if a.startswith(hc + "|" + callee_part + "|")] for hc in hosts]
+                if callee_part and all(rows):
+                    for r_ in rows:
+                        used_allow.add(r_[0])
+                        R.allow("ERR-1|" + r_[0], ALLOW[r_[0]] + " (site moved into the helper %s)" % p)
+                    continue
             bad += 1
             f = fl[0]
             R.check("ERR-1", k, False, f.site.where(),
